@@ -137,20 +137,34 @@ theorem filter_isortBy_of_sorted {le : α → α → Bool} (htot : Total le) (ht
 
 /-! ### map -/
 
-theorem map_insBy {β : Type} {le : α → α → Bool} {le' : β → β → Bool} (f : α → β)
-    (hf : ∀ a b, le' (f a) (f b) = le a b) (x : α) (l : List α) :
+theorem map_insBy_on {β : Type} {le : α → α → Bool} {le' : β → β → Bool} (f : α → β) (x : α) (l : List α)
+    (hf : ∀ b ∈ l, le' (f x) (f b) = le x b) :
     (insBy le x l).map f = insBy le' (f x) (l.map f) := by
   induction l with
   | nil => rfl
-  | cons y ys ih => simp only [insBy, List.map_cons, hf]; split <;> simp [ih]
+  | cons y ys ih =>
+    simp only [insBy, List.map_cons, hf y (List.mem_cons_self ..)]
+    split
+    · rfl
+    · simp [ih (fun b hb => hf b (List.mem_cons_of_mem _ hb))]
+
+/-- a map that preserves the comparison ON THE ELEMENTS OF THE LIST commutes with the sort -/
+theorem map_isortBy_on {β : Type} {le : α → α → Bool} {le' : β → β → Bool} (f : α → β) (l : List α)
+    (hf : ∀ a ∈ l, ∀ b ∈ l, le' (f a) (f b) = le a b) :
+    (isortBy le l).map f = isortBy le' (l.map f) := by
+  induction l with
+  | nil => rfl
+  | cons x xs ih =>
+    simp only [isortBy, List.map_cons]
+    rw [map_insBy_on f x _ (fun b hb => hf x (List.mem_cons_self ..) b
+        (List.mem_cons_of_mem _ (mem_isortBy.mp hb))),
+      ih (fun a ha b hb => hf a (List.mem_cons_of_mem _ ha) b (List.mem_cons_of_mem _ hb))]
 
 /-- **a map that preserves the comparison commutes with the sort** -/
 theorem map_isortBy {β : Type} {le : α → α → Bool} {le' : β → β → Bool} (f : α → β)
     (hf : ∀ a b, le' (f a) (f b) = le a b) (l : List α) :
-    (isortBy le l).map f = isortBy le' (l.map f) := by
-  induction l with
-  | nil => rfl
-  | cons x xs ih => simp only [isortBy, List.map_cons, map_insBy f hf, ih]
+    (isortBy le l).map f = isortBy le' (l.map f) :=
+  map_isortBy_on f l (fun a _ b _ => hf a b)
 
 /-! ### without ties the sorted permutation is unique -/
 
